@@ -346,9 +346,17 @@ def battery(s, b):
         'hex': lambda: call_name(lambda: s.hex), 'oct': lambda: call_name(lambda: s.oct), 'bytes': lambda: call_name(lambda: s.bytes),
         'str': lambda: str(s), 'to-BitArray': lambda: B(BitArray(s)), 'to-ConstBitStream': lambda: B(ConstBitStream(s)), 'to-Bits': lambda: B(Bits(s)),
         'copy': lambda: B(copy.copy(s)), 'copy()': lambda: B(s.copy()), 'uintle': lambda: call_name(lambda: s.uintle), 'float': lambda: call_name(lambda: repr(s.float)),
-        'tofile': lambda: tofile_bytes(s), 'readlist': lambda: call_name(lambda: ConstBitStream(s).readlist('bool, bits')[0]) if L else None,
+        'tobitarray-use': lambda: tobitarray_use(s), 'tofile': lambda: tofile_bytes(s), 'readlist': lambda: call_name(lambda: ConstBitStream(s).readlist('bool, bits')[0]) if L else None,
     }
     return {k: call_name(f) for k, f in obs.items()}
+
+
+def tobitarray_use(s):
+    """What a caller does with the returned bitarray: two calls give two objects that can be changed without touching s."""
+    ba, ba2 = s.tobitarray(), s.tobitarray()
+    ba.append(1)
+    ba.invert()
+    return ba.to01(), ba2.to01(), ba is ba2, B(s)
 
 
 def tofile_bytes(s):
